@@ -10,6 +10,11 @@ var RegistrySize = 256 * 20
 var RegistryGrowStep = 32
 var CallStackSize = 256
 var MaxTableGetLoop = 100
+
+// maxCCalls bounds the nesting of calls from Go code into the interpreter
+// (LUAI_MAXCCALLS in Lua 5.1).
+const maxCCalls = 200
+
 var MaxArrayIndex = 67108864
 
 type LNumber float64
